@@ -17,9 +17,10 @@
 (* Deliberately not asserted: what happens to the caller's own argument     *)
 (* during the call (masks filter it in place); messages passed to           *)
 (* constructors (not a write); pointer identity of a read result with the   *)
-(* stored message (only change over time counts); handed-out messages that  *)
-(* change because the caller scribbled on a message aliased with them       *)
-(* (reported through the read-back: caller-scribble-changed-store);         *)
+(* stored message (only change over time counts); handles that ARE the      *)
+(* message objects the caller scribbled on (on a "scribble" line the caller  *)
+(* writes through his message in place: every other handle that changes     *)
+(* with it is listed in changed and judged by HandedOutStable);             *)
 (* the read-back changing during a "recheck" (no operation to blame).       *)
 (***************************************************************************)
 EXTENDS Isolation
